@@ -158,19 +158,47 @@ impl Monitor for C06 {
                 c.stats.sig(&["claim", &paid.len().to_string(), if until_epoch.is_some() { "until" } else { "now" }, &post.farms.len().min(4).to_string()]);
             }
         }
+        // ---- a farm that still owes rewards and has not expired disappears only when its owner or the
+        // contract owner closes it: anybody else's message that sweeps it voids other users' claims
+        if out.ok() {
+            let now = c.w.now();
+            let sender = step.op.sender().unwrap_or_default().to_string();
+            let fm_owner = c.w.ownership(&c.w.a.fm).owner.map(|o| o.to_string()).unwrap_or_default();
+            for f0 in pre.farms.iter() {
+                if post.farm(&f0.identifier).is_none() && f0.owner.as_str() != sender && fm_owner != sender && super::c09::farm_expired(&c.w, f0, now) == Some(false) {
+                    return Err(viol(
+                        "C06.farm_closed_with_rewards_due",
+                        format!("farm {} still owed {} {} and had not expired, but {} by {} closed it: unclaimed rewards of its users are void", f0.identifier, f0.farm_asset.amount.u128().saturating_sub(f0.claimed_amount.u128()), f0.farm_asset.denom, step.op.kind(), c.w.a.name(&sender)),
+                    ));
+                }
+            }
+        }
         // ---- at DryClaims steps: nobody's rightful claim fails because a farm ran dry
         if matches!(step.op, Op::DryClaims) {
             for u in users_with_open(post) {
                 let snap = c.w.snapshot();
                 c.stats.forks += 1;
-                let o = c.exec_op(&Op::Fm { sender: u.clone(), msg: FmMsg::Claim { until_epoch: None }, funds: vec![] }, None);
-                c.w.restore(&snap);
-                c.stats.bump("probe.c06.dry_claim");
-                if !o.ok() && o.err_text().contains("enough funds to pay out the reward") {
-                    return Err(viol(
-                        "C06.claim_fails_farm_exhausted",
-                        format!("{}'s claim fails because a farm cannot pay the computed reward (somebody was overpaid or the total weight is below the users' sum)", c.w.a.name(&u)),
-                    ));
+                // up to now, and bounded by earlier epochs (others may have claimed later ones)
+                let cur = c.w.current_epoch().unwrap_or(0);
+                let last = post.last_claimed.get(&u).copied();
+                let mut untils: Vec<Option<u64>> = vec![None];
+                if let Some(l) = last {
+                    if l + 1 < cur {
+                        untils.push(Some(l + 1));
+                        untils.push(Some(l + (cur - l) / 2));
+                    }
+                }
+                untils.dedup();
+                for until_epoch in untils {
+                    let o = c.exec_op(&Op::Fm { sender: u.clone(), msg: FmMsg::Claim { until_epoch }, funds: vec![] }, None);
+                    c.w.restore(&snap);
+                    c.stats.bump(if until_epoch.is_some() { "probe.c06.dry_claim_bounded" } else { "probe.c06.dry_claim" });
+                    if !o.ok() && o.err_text().contains("enough funds to pay out the reward") {
+                        return Err(viol(
+                            "C06.claim_fails_farm_exhausted",
+                            format!("{}'s claim (until_epoch {:?}) fails because a farm cannot pay the computed reward (somebody was overpaid, the total weight is below the users' sum, or the farm's budget check counts what others claimed for later epochs)", c.w.a.name(&u), until_epoch),
+                        ));
+                    }
                 }
             }
         }
